@@ -7,15 +7,134 @@ package didnuts
 
 import (
 	"encoding/json"
+	"errors"
+	"fmt"
 	mrand "math/rand"
 	"os"
 	"strings"
 	"testing"
+	"time"
 
 	"github.com/lestrrat-go/jwx/v2/jwk"
 	"github.com/nuts-foundation/go-did/did"
+	"github.com/nuts-foundation/go-stoabs"
+	nutsCrypto "github.com/nuts-foundation/nuts-node/crypto"
+	"github.com/nuts-foundation/nuts-node/crypto/hash"
+	"github.com/nuts-foundation/nuts-node/network"
+	"github.com/nuts-foundation/nuts-node/network/dag"
+	"github.com/nuts-foundation/nuts-node/vdr/didnuts/didstore"
 	"github.com/nuts-foundation/nuts-node/vdr/resolver"
+	"github.com/sirupsen/logrus"
 )
+
+// c19Store / c19Net: the two collaborators the REAL ambassador.callback hands an accepted document to
+type c19Store struct {
+	didstore.Store
+	adds   int
+	addErr error
+}
+
+func (s *c19Store) Add(_ did.Document, _ didstore.Transaction) error {
+	if s.addErr != nil {
+		return s.addErr
+	}
+	s.adds++
+	return nil
+}
+func (s *c19Store) Resolve(_ did.DID, _ *resolver.ResolveMetadata) (*did.Document, *resolver.DocumentMetadata, error) {
+	return nil, nil, resolver.ErrNotFound
+}
+
+type c19Net struct{ network.Transactions }
+
+func (c19Net) DiscoverServices(_ did.DID) {}
+
+// c19CallbackOp feeds one payload through the REAL ambassador.handleNetworkEvent → callback (modelled op `didnuts.callback`,
+// NutsModel/C19/Ambassador.lean). tx: 0 = create (signing key in the header), 1 = update (no signing key, one previous),
+// 2 = wrong payload type, 3 = empty payload hash, 4 = zero signing time, 5 = create with a store that fails (database error)
+func c19CallbackOp(o *c19Out, key jwk.Key, payload string, txKind int) {
+	tx := testTransaction{payloadType: DIDDocumentType, payloadHash: hash.SHA256Sum([]byte(payload)), signingTime: time.Unix(1700000000, 0),
+		ref: hash.SHA256Sum([]byte("ref" + payload)), signingKey: key}
+	store := &c19Store{}
+	switch txKind {
+	case 1:
+		tx.signingKey, tx.prevs = nil, []hash.SHA256Hash{hash.SHA256Sum([]byte("prev"))}
+	case 2:
+		tx.payloadType = "application/vc+json"
+	case 3:
+		tx.payloadHash = hash.EmptyHash()
+	case 4:
+		tx.signingTime = time.Time{}
+	case 5:
+		store.addErr = stoabs.DatabaseError(errors.New("disk full"))
+	}
+	op := map[string]any{"op": "didnuts.callback", "payload": payload, "tx": txKind,
+		"ptOk": tx.payloadType == DIDDocumentType, "hashSet": !tx.payloadHash.Empty(), "timeSet": !tx.signingTime.IsZero()}
+	// data for the model, observed independently of the callback
+	op["nullEntries"] = resolver.RejectNullKeyEntries([]byte(payload)) != nil
+	var doc did.Document
+	um := c19Class(c19Guard(func() string {
+		if err := json.Unmarshal([]byte(payload), &doc); err != nil {
+			return "err"
+		}
+		return "ok"
+	}))
+	if strings.HasPrefix(um, "panic") {
+		um = "panic"
+	}
+	op["unmarshal"] = um
+	op["validateOk"] = false
+	if um == "ok" {
+		op["validateOk"] = c19Guard(func() string { return fmt.Sprint(NetworkDocumentValidator().Validate(doc) == nil) }) == "true"
+	}
+	c19Mark(op)
+	amb := NewAmbassador(c19Net{}, store, nil).(*ambassador)
+	handled := "ok"
+	res := c19Guard(func() string {
+		done, err := amb.handleNetworkEvent(dag.Event{Transaction: tx, Payload: []byte(payload)})
+		ev, cb := "done", "ok"
+		if err != nil {
+			ev = "retry"
+			var fatal dag.EventFatal
+			if errors.As(err, &fatal) {
+				ev = "fatal"
+			}
+			m := err.Error()
+			switch {
+			case strings.Contains(m, "could not process new DID Document: "):
+				cb = "err:integrity"
+			case strings.Contains(m, "unable to unmarshal DID document from network payload"):
+				cb = "err:unmarshal"
+			case strings.Contains(m, "DID Document integrity check failed"):
+				cb = "err:validate"
+			case errors.As(err, new(stoabs.ErrDatabase)):
+				cb, handled = "err:database", "db"
+			default:
+				cb, handled = "err:handle", "other"
+			}
+		}
+		if done != (err == nil) {
+			return "INVARIANT-BROKEN done=" + fmt.Sprint(done) + " err=" + fmt.Sprint(err)
+		}
+		line := "ev=" + ev + " cb=" + cb
+		// clause (S): a rejected payload leaves the store unchanged
+		if err != nil && store.adds != 0 {
+			line += " STATE-CHANGED-ON-ERROR"
+		}
+		return line
+	})
+	op["handled"] = handled
+	if strings.HasPrefix(res, "panic:") {
+		res = c19Class(res)
+		if strings.HasPrefix(res, "panic:callback>did.") || strings.HasPrefix(res, "panic:callback>json.") {
+			res = "panic:callback>did.Document.UnmarshalJSON"
+		}
+	}
+	if len(payload) > 4000 {
+		op["payload"] = c19Short(payload, 4000) // (replay of an over-long payload is approximate; the model only needs the observed data)
+	}
+	o.emit(op, res)
+}
 
 const c19NutsDocTmpl = `{"@context":["https://www.w3.org/ns/did/v1","https://w3id.org/security/suites/jws-2020/v1"],
 "id":"did:nuts:3gU9z3j7j4VCboc3qq3Vc5mVVGDNGjfg32xokeX8c8Zn",
@@ -34,6 +153,7 @@ func TestVerifC19(t *testing.T) {
 	}
 	o := c19Open(dir)
 	defer o.close(dir)
+	logrus.SetLevel(logrus.PanicLevel) // (the callback logs every registered document)
 	r := mrand.New(mrand.NewSource(c19Seed()*67867967 + 13))
 	m := jmut{r}
 
@@ -106,8 +226,24 @@ func TestVerifC19(t *testing.T) {
 	}
 	eps := map[string]func(string) string{"didnuts.Validate(nil entries planted)": validateWithNilEntries, "didnuts.validate+findKeyByThumbprint": path, "didnuts.accepted-doc-then-findKeyByThumbprint": validatedThenLookup}
 
+	// the key id of a did:nuts verification method is the thumbprint of its key
+	key, err := jwk.ParseKey([]byte(`{"kty":"EC","crv":"P-256","x":"VovYU-43esqZaDLPBhbV44G6nvSYXHv0_pXFkLL5wWw","y":"kD-ev_48d7JSh-Ig2Rt0qDf_7OrGSPNbMbHxXsfgmVo"}`))
+	if err != nil {
+		t.Fatal(err)
+	}
+	_ = jwk.AssignKeyID(key)
 	replay, isReplay := c19ReadOps()
 	for _, op := range replay {
+		if op["op"] == "didnuts.callback" {
+			pl, _ := op["payload"].(string)
+			k := 0
+			if n, ok := op["tx"].(json.Number); ok {
+				i, _ := n.Int64()
+				k = int(i)
+			}
+			c19CallbackOp(o, key, pl, k)
+			continue
+		}
 		name, _ := op["op"].(string)
 		if len(name) > 2 {
 			if fn, ok := eps[name[2:]]; ok {
@@ -119,12 +255,6 @@ func TestVerifC19(t *testing.T) {
 	if isReplay {
 		return
 	}
-	// the key id of a did:nuts verification method is the thumbprint of its key
-	key, err := jwk.ParseKey([]byte(`{"kty":"EC","crv":"P-256","x":"VovYU-43esqZaDLPBhbV44G6nvSYXHv0_pXFkLL5wWw","y":"kD-ev_48d7JSh-Ig2Rt0qDf_7OrGSPNbMbHxXsfgmVo"}`))
-	if err != nil {
-		t.Fatal(err)
-	}
-	_ = jwk.AssignKeyID(key)
 	c19NutsDoc := strings.ReplaceAll(c19NutsDocTmpl, "KEYFRAGMENT", key.KeyID())
 	if res := validatedThenLookup(c19NutsDoc); res != "ok" {
 		t.Fatalf("valid did:nuts document is not accepted: %s", res)
@@ -136,6 +266,65 @@ func TestVerifC19(t *testing.T) {
 			f := fn
 			o.explore(name, in, func() string { return f(in) })
 		}
+	}
+	// ---- the REAL subscriber: ambassador.handleNetworkEvent → callback (modelled op didnuts.callback)
+	thumb, err := nutsCrypto.Thumbprint(key)
+	if err != nil {
+		t.Fatal(err)
+	}
+	ownDoc := strings.ReplaceAll(c19NutsDoc, "3gU9z3j7j4VCboc3qq3Vc5mVVGDNGjfg32xokeX8c8Zn", thumb) // the DID of a create transaction is the thumbprint of its signing key
+	cb := func(b []byte, kind string, kinds ...int) {
+		o.dist["didnuts.callback:"+kind] += len(kinds)
+		for _, k := range kinds {
+			c19CallbackOp(o, key, string(b), k)
+		}
+	}
+	for k := 0; k <= 5; k++ {
+		cb([]byte(ownDoc), "valid", k)
+		cb([]byte(c19NutsDoc), "valid-other-did", k)
+	}
+	{
+		// null entries in the key arrays: alone, with a reference / an embedded method / a second null in every relationship, before and
+		// after a valid entry, under case variants of the member names (encoding/json matches member names case-insensitively)
+		did0 := "did:nuts:" + thumb
+		vm := `{"id":"` + did0 + `#` + key.KeyID() + `","type":"JsonWebKey2020","controller":"` + did0 + `","publicKeyJwk":{"kty":"EC","crv":"P-256","x":"VovYU-43esqZaDLPBhbV44G6nvSYXHv0_pXFkLL5wWw","y":"kD-ev_48d7JSh-Ig2Rt0qDf_7OrGSPNbMbHxXsfgmVo"}}`
+		ref := `"` + did0 + `#` + key.KeyID() + `"`
+		vmVals := []string{`[null]`, `[null,` + vm + `]`, `[` + vm + `,null]`, `[` + vm + `]`, `null`, `[]`, `[null,null]`}
+		relVals := []string{`[` + ref + `]`, `[null]`, `[` + ref + `,null]`, `[null,` + ref + `]`, `[` + vm + `]`, `["#` + key.KeyID() + `"]`, `["did:nuts:other#k"]`}
+		rels := []string{"authentication", "assertionMethod", "capabilityInvocation", "capabilityDelegation", "keyAgreement"}
+		caseOf := func(s string, v int) string {
+			switch v {
+			case 1:
+				return strings.ToUpper(s[:1]) + s[1:]
+			case 2:
+				return strings.ToLower(s)
+			case 3:
+				return strings.ToUpper(s)
+			}
+			return s
+		}
+		for vi, vmv := range vmVals {
+			for _, rel := range rels {
+				for ri, rv := range relVals {
+					for cv := 0; cv < 4; cv++ {
+						if cv > 0 && (vi > 2 || ri > 2) {
+							continue // case variants only for the null-entry shapes
+						}
+						ci := `,"capabilityInvocation":[` + ref + `]`
+						if rel == "capabilityInvocation" {
+							ci = ""
+						}
+						doc := `{"@context":["https://www.w3.org/ns/did/v1"],"id":"` + did0 + `","` + caseOf("verificationMethod", cv) + `":` + vmv + `,"` + caseOf(rel, cv) + `":` + rv + ci + `}`
+						cb([]byte(doc), "null-entry-table", 0, 1)
+					}
+				}
+			}
+		}
+	}
+	jsystematic([]byte(ownDoc), func(b []byte, kind string) { cb(b, kind, 0, 1) })
+	for i := 0; i < c19Env("VERIF_N", 400); i++ {
+		b, kind := m.mutate([]byte(ownDoc))
+		cb(b, "rand:"+kind, r.Intn(6))
 	}
 	jsystematic([]byte(c19NutsDoc), run)
 	n := c19Env("VERIF_N", 400)
